@@ -9,9 +9,15 @@ keys, executions, any interleaving of calls, body steps, completions and cancell
 any number of callers at any point, not just one), starting from the empty state, with the executions
 running either the bare function (`b = false`) or a cache decorator (`b = true`).
 
+An execution's outcome is one of three: it returned a value, raised an exception, or *ended cancelled*
+(`Outcome.cancelled`: the body's own await was cancelled underneath it - distinct from the cancellation of a
+caller, which is the `cancel` action).  Every theorem below is for all three.  The `key` of a call is the
+rendered cache key, not the argument list (`Args`, `cacheKey`, `Act.callWith` in the model).
+
 Trusted, not proved (DESIGN §3): asyncio runs a task without preemption up to its next suspension point
-(A1: a `call` is atomic), and cancelling a task that awaits `asyncio.shield(t)` does not cancel `t` (A2: the
-`cancel` action touches the caller only).  The harness exercises both against the real event loop.
+(A1: a `call` is atomic), cancelling a task that awaits `asyncio.shield(t)` does not cancel `t` (A2: the
+`cancel` action touches the caller only), and a task that ended cancelled is done - its done-callbacks run and
+its shielded waiters get `CancelledError` (A3).  The harness exercises all three against the real event loop.
 -/
 namespace CashewsVerif.Props.C07
 open CashewsVerif.SingleFlight
@@ -90,7 +96,8 @@ theorem call_attaches (b : Bool) (tr : List Act) (key c n : Nat) (o : Outcome)
 
 /-- **Waiters share the outcome.**  In every reachable state, a caller that joined (or started) execution
 `e` and was not cancelled is either still waiting on the *unfinished* `e`, or holds exactly `e`'s outcome -
-returned value or raised exception - and `e` has finished.  In particular nobody is left waiting on a
+returned value, raised exception, or the `CancelledError` of an execution that ended cancelled - and `e` has
+finished.  In particular nobody is left waiting on a
 finished execution and nobody receives anything else. -/
 theorem waiters_share_outcome (b : Bool) (tr : List Act) (c e : Nat) (st : CSt)
     (hc : (run (init b) tr).callers c = some ⟨some e, st⟩) (hnc : st ≠ .cancelled) :
@@ -114,7 +121,7 @@ theorem exec_script_fixed (b : Bool) (tr tr2 : List Act) (e : Nat) (x : Exec)
   exact ⟨x', hx', h1, h2, h3, h4⟩
 
 /-- **Completion fans out and clears the table.**  When an unfinished execution with no suspension point left
-finishes: every caller waiting on it receives its outcome, every other caller is untouched, its key becomes
+finishes (with any outcome - a value, an exception, or ended cancelled): every caller waiting on it receives its outcome, every other caller is untouched, its key becomes
 free and no other key is affected. -/
 theorem finish_delivers (b : Bool) (tr : List Act) (e : Nat) (x : Exec)
     (hx : (run (init b) tr).execs e = some x) (hf : x.finished = false) (hr : x.remaining = 0) :
@@ -139,7 +146,8 @@ theorem finish_delivers (b : Bool) (tr : List Act) (e : Nat) (x : Exec)
     · exact absurd h1 hc
     · exact h2
 
-/-- **After the completion the key is free**: the next call with that key (by any new caller) starts a new
+/-- **After the completion the key is free** - after ANY completion: `x.outcome` is arbitrary (returned, raised,
+ended cancelled; `cancelled_execution_is_over` spells the last case out): the next call with that key (by any new caller) starts a new
 execution - distinct from the finished one, in flight, with the caller waiting on it. -/
 theorem table_cleared_on_finish (b : Bool) (tr : List Act) (e : Nat) (x : Exec)
     (hx : (run (init b) tr).execs e = some x) (hf : x.finished = false) (hr : x.remaining = 0)
@@ -183,6 +191,87 @@ theorem table_cleared_on_finish (b : Bool) (tr : List Act) (e : Nat) (x : Exec)
   · obtain ⟨x', hx', hf'⟩ := hex
     obtain ⟨y, hy, hl⟩ := exec_step s hinv (.call c x.key n o) e x' hx'
     exact ⟨y, hy, hl.2.2.2.1 hf'⟩
+
+/-- **The registry key is the cache key, not the argument list.**  Two calls whose arguments render to the
+same cache key - however they differ in what the key template leaves out (a per-request session, ...) - made
+one after the other from any reachable state end up waiting on one and the same in-flight execution of that
+key, and the second call starts nothing. -/
+theorem same_cache_key_shares (b : Bool) (tr : List Act) (c1 c2 n1 n2 : Nat) (o1 o2 : Outcome) (a1 a2 : Args)
+    (hk : cacheKey a1 = cacheKey a2) (h12 : c2 ≠ c1)
+    (h1 : (run (init b) tr).callers c1 = none) (h2 : (run (init b) tr).callers c2 = none) :
+    ∃ e, (run (init b) (tr ++ [.callWith c1 a1 n1 o1, .callWith c2 a2 n2 o2])).callers c1 = some ⟨some e, .waiting⟩ ∧
+      (run (init b) (tr ++ [.callWith c1 a1 n1 o1, .callWith c2 a2 n2 o2])).callers c2 = some ⟨some e, .waiting⟩ ∧
+      InFlight (run (init b) (tr ++ [.callWith c1 a1 n1 o1, .callWith c2 a2 n2 o2])) e (cacheKey a1) ∧
+      (run (init b) (tr ++ [.callWith c1 a1 n1 o1, .callWith c2 a2 n2 o2])).created =
+        (run (init b) (tr ++ [.callWith c1 a1 n1 o1])).created := by
+  obtain ⟨e, he1, hfl⟩ := call_attaches b tr (cacheKey a1) c1 n1 o1 h1
+  have e1 : run (init b) (tr ++ [.call c1 (cacheKey a1) n1 o1]) = step (run (init b) tr) (.call c1 (cacheKey a1) n1 o1) := by
+    rw [run_append]; rfl
+  have h2' : (run (init b) (tr ++ [.call c1 (cacheKey a1) n1 o1])).callers c2 = none := by
+    rw [e1, call_other_caller _ c1 c2 _ _ _ h12]; exact h2
+  obtain ⟨j1, j2, j3, _⟩ := concurrent_call_joins b (tr ++ [.call c1 (cacheKey a1) n1 o1]) (cacheKey a1) e c2 n2 o2 hfl h2'
+  have e2 : run (init b) (tr ++ [.callWith c1 a1 n1 o1, .callWith c2 a2 n2 o2]) =
+      step (run (init b) (tr ++ [.call c1 (cacheKey a1) n1 o1])) (.call c2 (cacheKey a1) n2 o2) := by
+    rw [run_append, run_append]
+    show step (step _ (.call c1 (cacheKey a1) n1 o1)) (.call c2 (cacheKey a2) n2 o2) = _
+    rw [← hk]; rfl
+  rw [e2]
+  refine ⟨e, ?_, j1, ?_, j3⟩
+  · rw [call_other_caller _ c2 c1 _ _ _ (Ne.symm h12)]; exact he1
+  · obtain ⟨x, hx, hk', hf⟩ := hfl
+    exact ⟨x, by rw [j2]; exact hx, hk', hf⟩
+
+/-- **An execution that ended cancelled is over like any other.**  When an execution whose outcome is
+`cancelled` (the body's own await was cancelled) completes: every caller waiting on it receives
+`CancelledError` (`got cancelled` - what `await asyncio.shield(task)` does for a cancelled task), the key is
+free, nothing is stored in the cache, and the next call with that key - by any new caller - starts a new
+execution that runs that call's own script (or is a cache hit of an earlier stored value), with the caller
+waiting on it. -/
+theorem cancelled_execution_is_over (b : Bool) (tr : List Act) (e : Nat) (x : Exec)
+    (hx : (run (init b) tr).execs e = some x) (hf : x.finished = false) (hr : x.remaining = 0)
+    (ho : x.outcome = .cancelled) :
+    (∀ c, (run (init b) tr).callers c = some ⟨some e, .waiting⟩ →
+        (run (init b) (tr ++ [.finish e])).callers c = some ⟨some e, .got .cancelled⟩) ∧
+    (run (init b) (tr ++ [.finish e])).table x.key = none ∧
+    (run (init b) (tr ++ [.finish e])).cached = (run (init b) tr).cached ∧
+    (∀ c n o, (run (init b) (tr ++ [.finish e])).callers c = none →
+      c ≠ e ∧ InFlight (run (init b) (tr ++ [.finish e, .call c x.key n o])) c x.key ∧
+      (run (init b) (tr ++ [.finish e, .call c x.key n o])).callers c = some ⟨some c, .waiting⟩ ∧
+      (run (init b) (tr ++ [.finish e, .call c x.key n o])).execs c =
+        some (newExec (run (init b) (tr ++ [.finish e])) x.key n o)) := by
+  have e1 : run (init b) (tr ++ [.finish e]) = step (run (init b) tr) (.finish e) := by
+    rw [run_append]; rfl
+  obtain ⟨d1, _, d3, _⟩ := finish_delivers b tr e x hx hf hr
+  refine ⟨?_, ?_, ?_, ?_⟩
+  · intro c hc
+    rw [e1, d1 c hc, ho]
+  · rw [e1]; exact d3
+  · rw [e1]
+    show (stepFinish (run (init b) tr) e).cached = _
+    unfold stepFinish
+    rw [hx]
+    simp only [hf, hr, Bool.false_eq_true, ne_eq, not_true_eq_false, or_self, if_false, ho]
+  · intro c n o hc
+    obtain ⟨t1, t2, t3, t4, _⟩ := table_cleared_on_finish b tr e x hx hf hr c n o hc
+    refine ⟨t2, t3, t4, ?_⟩
+    have e2 : run (init b) (tr ++ [.finish e, .call c x.key n o]) =
+        step (run (init b) (tr ++ [.finish e])) (.call c x.key n o) := by
+      rw [run_append, run_append]; rfl
+    rw [e2]
+    show (stepCall _ c x.key n o).execs c = _
+    unfold stepCall
+    rw [hc, t1]
+    simp
+
+/-- **A finished execution is never joined** - whatever its outcome (returned, raised, ended cancelled) and
+whatever happens afterwards: a caller found attached to `e` at any later point was already attached to `e`
+when `e` had just finished.  (No later call is ever treated as a waiter of an execution that is over.) -/
+theorem finished_execution_gains_no_waiters (b : Bool) (tr tr2 : List Act) (e : Nat) (x : Exec)
+    (hx : (run (init b) tr).execs e = some x) (hf : x.finished = true) (c : Nat) (st : CSt)
+    (hc : (run (init b) (tr ++ tr2)).callers c = some ⟨some e, st⟩) :
+    ∃ st', (run (init b) tr).callers c = some ⟨some e, st'⟩ := by
+  rw [run_append] at hc
+  exact finished_no_new_waiters _ (reachable_inv b tr) tr2 e x hx hf c st hc
 
 /-- **Cancellation is local (one step, any state whatsoever).**  Cancelling caller `c` changes no other
 caller's entry, no execution (none is stopped, none loses a step), not the table, not the cache. -/
@@ -289,5 +378,29 @@ example : (run (init false) (demo ++ [.bodyStep 1, .finish 1])).callers 3 = some
 -- bursts: two callers released together on an execution without suspension points share it
 example : (macroStep (init false) [.call 1 0 0 (.ret 7), .call 2 0 0 (.ret 8)]).callers 2
     = some ⟨some 1, .got (.ret 7)⟩ := by decide
+
+-- an execution that ENDS CANCELLED (outcome `cancelled`, nobody cancelled a caller): both waiters receive
+-- CancelledError, the key is free, and the next call starts execution 3 which delivers its own result
+def demoK : List Act := [.call 1 0 1 .cancelled, .call 2 0 0 (.ret 8), .bodyStep 1, .finish 1]
+example : (run (init true) demoK).callers 1 = some ⟨some 1, .got .cancelled⟩ ∧
+    (run (init true) demoK).callers 2 = some ⟨some 1, .got .cancelled⟩ ∧
+    (run (init true) demoK).table 0 = none ∧ (run (init true) demoK).cached 0 = none := by decide
+example : (run (init true) (demoK ++ [.call 3 0 0 (.ret 9), .call 4 0 0 (.ret 5), .finish 3])).callers 3
+      = some ⟨some 3, .got (.ret 9)⟩ ∧
+    (run (init true) (demoK ++ [.call 3 0 0 (.ret 9), .call 4 0 0 (.ret 5), .finish 3])).callers 4
+      = some ⟨some 3, .got (.ret 9)⟩ ∧
+    bodyStarts (run (init true) (demoK ++ [.call 3 0 0 (.ret 9), .call 4 0 0 (.ret 5), .finish 3])) 0 = 2 := by decide
+-- premises of `cancelled_execution_is_over` just before the completion
+example : (run (init true) [.call 1 0 1 .cancelled, .call 2 0 0 (.ret 8), .bodyStep 1]).execs 1
+    = some ⟨0, 0, .cancelled, false, false⟩ := by decide
+-- premises of `finished_execution_gains_no_waiters`: execution 1 is finished in `demoK`, caller 3 arrives later
+example : (run (init true) demoK).execs 1 = some ⟨0, 0, .cancelled, true, false⟩ := by decide
+-- calls that differ only in the argument the key template leaves out share one execution; a different key does not
+example : (run (init true) [.callWith 1 ⟨7, 100⟩ 1 (.ret 1), .callWith 2 ⟨7, 200⟩ 1 (.ret 2), .callWith 3 ⟨8, 100⟩ 1 (.ret 3)]).callers 2
+    = some ⟨some 1, .waiting⟩ := by decide
+example : (run (init true) [.callWith 1 ⟨7, 100⟩ 1 (.ret 1), .callWith 2 ⟨7, 200⟩ 1 (.ret 2), .callWith 3 ⟨8, 100⟩ 1 (.ret 3)]).created
+    = [1, 3] := by decide
+-- premises of `same_cache_key_shares`
+example : cacheKey ⟨7, 100⟩ = cacheKey ⟨7, 200⟩ ∧ (run (init true) []).callers 1 = none := by decide
 
 end CashewsVerif.Props.C07
